@@ -264,3 +264,16 @@ func init() {
 		Runs: []Run{{Pkg: hp + "c17", Variant: "real", NeedBins: []NeedBin{{Env: "VERIF_PLUGINSIM", Variant: "real", Pkg: "internal/zzverif/pluginsim"}, {Env: "VERIF_AGE_BIN", Variant: "real", Pkg: "cmd/age"}}}},
 	}
 }
+
+func init() {
+	specs["C15"] = &Spec{
+		Title: "CLI: exit status 0 if and only if the whole result was delivered",
+		Level: "fault_enumeration",
+		LevelText: "The real cmd/age and cmd/age-keygen binaries, built from the working tree, are run as processes: every scenario of the synopsis family (encrypt with -r x25519/ssh-ed25519/ssh-rsa, -R, -e -i, two recipients, -p under a pty; decrypt with x25519 / SSH key files, passphrase and encrypted identity file under a pty) x armor x sizes {0, 1, 64 KiB+1 (, 128 KiB+1)} x input {file, stdin} x output {stdout, new file, existing file} must exit 0 with a verified result; each is then re-run with the output file limited (RLIMIT_FSIZE) to every byte count 0..size (small outputs; header, chunk seams, stride and tail for large ones), with stdout on /dev/full, and with -o in a nonexistent directory or below a regular file, and must exit non-zero exactly when the result was not completely delivered. Header-level refusals must leave the -o target absent or byte- and mtime-identical, payload failures a prefix; -o naming the input, an identity file or a recipients file under 7 path spellings must be refused; age-keygen: three-line output, matching keys, mode 0600, no overwrite, every size limit.",
+		LevelNote: "RLIMIT_FSIZE (prlimit) is a deterministic, byte-exact 'disk full at offset N' for regular files (the Go runtime ignores SIGXFSZ, the write fails with EFBIG); faults on close()/fsync and terminal destinations are not injected; symlinks and hard links are not 'spellings'",
+		Technique: "exhaustive fault-point enumeration (every output byte offset, unwritable destinations) and configuration enumeration on the real binaries as sub-processes, with a reference-decoder oracle",
+		Rule: "enumerate (scenario, output mode, fault); oracle: exit 0 iff no fault fired and the result verifies; file-system state after refusals. distinct_nontrivial counts distinct (scenario, fault) process runs.",
+		Assumptions: commonAssume,
+		Runs: []Run{{Pkg: hp + "c15", Variant: "real", NeedBins: []NeedBin{{Env: "VERIF_AGE_BIN", Variant: "real", Pkg: "cmd/age"}, {Env: "VERIF_KEYGEN_BIN", Variant: "real", Pkg: "cmd/age-keygen"}}}},
+	}
+}
